@@ -382,8 +382,12 @@ func (dr *dirRepo) blobCreate(locked bool, opts ...BlobOpt) (BlobCreator, string
 		if err := conf.expect.Validate(); err != nil {
 			return nil, "", fmt.Errorf("invalid digest: %s: %w", string(conf.expect), err)
 		}
-		_, err := os.Stat(filepath.Join(dr.path, blobsDir, conf.expect.Algorithm().String(), conf.expect.Encoded()))
+		filename := filepath.Join(dr.path, blobsDir, conf.expect.Algorithm().String(), conf.expect.Encoded())
+		_, err := os.Stat(filename)
 		if err == nil {
+			// content that is pushed again is as recent as a new upload, the GC grace period starts over
+			now := time.Now()
+			_ = os.Chtimes(filename, now, now)
 			return nil, "", types.ErrBlobExists
 		}
 	}
